@@ -167,6 +167,11 @@ KERNELS4 = [
          rtype=SOLVER_RT, fuels={},
          unbound=[("itr", "Z"), ("xblk", "T"), ("fblk", "T"), ("spre", "T"), ("scur", "T")]),
 ]
+GT = "quantecon/_gridtools.py"
+KERNELS4 += [
+    dict(cname="num_compositions_jit", file=GT, py="num_compositions_jit", params=[("m", "Z"), ("n", "Z")], rtype="Z", fuels={}),
+    dict(cname="simplex_grid", file=GT, py="simplex_grid", params=[("m", "Z"), ("n", "Z")], rtype="MZ", fuels={}),
+]
 # PO: the namedtuple PivOptions(fea_tol, tol_piv, tol_ratio_diff), flattened into three element parameters
 PO_FIELDS = ["fea_tol", "tol_piv", "tol_ratio_diff"]
 PO_DEFAULTS = ["FEA_TOL", "TOL_PIV", "TOL_RATIO_DIFF"]     # PivOptions.__new__.__defaults__ (checked in generate2)
@@ -322,6 +327,10 @@ class Tr:
             return "B"
         if self.v4 and isinstance(e, ast.Name) and e.id not in self.types and type(self.modconsts.get(e.id)) is int:
             return "Z"
+        if self.v4 and isinstance(e, ast.Name) and e.id not in self.types and type(self.modconsts.get(e.id)) is str:
+            return "S"
+        if self.v4 and self.np_int_alloc(e) is not None:
+            return self.np_int_alloc(e)[0]
         if isinstance(e, ast.Name):
             if e.id not in self.types:
                 raise Unsupported("unknown variable %s" % e.id)
@@ -518,6 +527,17 @@ class Tr:
             return "(%s %s)" % ("nrows2" if k == 0 else "ncols2", arr)
         return "(Z.of_nat (length %s))" % arr
 
+    def np_int_alloc(self, e):
+        """np.zeros(n, dtype=np.int_) / np.empty((a, b), dtype=np.int_): (type, Coq text); uninitialised memory as zeros"""
+        if isinstance(e, ast.Call) and ast.unparse(e.func) in ("np.zeros", "np.empty") and len(e.args) == 1 and len(e.keywords) == 1 \
+                and e.keywords[0].arg == "dtype" and ast.unparse(e.keywords[0].value) == "np.int_":
+            a = e.args[0]
+            if isinstance(a, ast.Tuple) and len(a.elts) == 2 and all(self.ty(x) == "Z" for x in a.elts):
+                return "MZ", "(repeat (repeat 0 (Z.to_nat %s)) (Z.to_nat %s))" % (self.ex(a.elts[1]), self.ex(a.elts[0]))
+            if not isinstance(a, ast.Tuple) and self.ty(a) == "Z" and ast.unparse(e.func) == "np.zeros":
+                return "LZ", "(repeat 0 (Z.to_nat %s))" % self.ex(a)
+        return None
+
     def anyint(self, e):
         """an int literal (possibly negated) in element context: its value"""
         if isinstance(e, ast.Constant) and type(e.value) is int:
@@ -610,6 +630,10 @@ class Tr:
         if self.v4 and isinstance(e, ast.Name) and e.id not in self.types and type(self.modconsts.get(e.id)) is int:
             v = self.modconsts[e.id]
             return "%d" % v if v >= 0 else "(%d)" % v
+        if self.v4 and isinstance(e, ast.Name) and e.id not in self.types and type(self.modconsts.get(e.id)) is str:
+            return '"%s"%%string' % self.modconsts[e.id].replace('"', '""')
+        if self.v4 and self.np_int_alloc(e) is not None:
+            return self.np_int_alloc(e)[1]
         if isinstance(e, ast.Name):
             self.ty(e)
             return e.id
@@ -1025,7 +1049,9 @@ class Tr:
                     raise Unsupported("rebinding array parameter %s" % tgt.id)
                 if isinstance(t, tuple) or t in ("LT", "PO", "F", "ARGS") or \
                         (t == "MT" and not (self.v2 and self.np_empty2(value) is not None and tgt.id not in self.types)) or \
-                        (t == "LZ" and not (self.v2 and (self.np_empty_int(value) is not None or self.np_arange(value) is not None)
+                        (t == "MZ" and not (self.v4 and self.np_int_alloc(value) is not None and tgt.id not in self.types)) or \
+                        (t == "LZ" and not (self.v2 and (self.np_empty_int(value) is not None or self.np_arange(value) is not None
+                                                         or (self.v4 and self.np_int_alloc(value) is not None))
                                             and tgt.id not in self.types)):
                     raise Unsupported("assignment of %s" % ast.unparse(value))
                 val = self.exT(value, t) if self.v2 else self.ex(value)
@@ -1428,6 +1454,9 @@ def module_consts(tree):
                 and isinstance(n.value, ast.UnaryOp) and isinstance(n.value.op, ast.USub) \
                 and isinstance(n.value.operand, ast.Constant) and type(n.value.operand.value) in (int, float):
             out[n.targets[0].id] = -n.value.operand.value
+        elif isinstance(n, ast.Assign) and len(n.targets) == 1 and isinstance(n.targets[0], ast.Name) \
+                and isinstance(n.value, ast.Constant) and type(n.value.value) is str:
+            out[n.targets[0].id] = n.value.value
     return out
 
 
